@@ -32,7 +32,7 @@ ASSUMPTIONS = [
     "unexpected (non-ResolverError) resolver exceptions are outside this property (they abort the request; see C08)",
     "documented middleware nesting = apply_middlewares doctest: the last listed middleware is outermost",
 ]
-BOUNDS = {"quick": {"early_bound": 1, "stacks": "instr 1,2,3n x mw 0,2 (+tracer)"}, "thorough": {"early_bound": 2, "stacks": "instr 1,2,3,3n x mw 0,1,2,3 (+tracer)"}}
+BOUNDS = {"quick": {"early_bound": 1, "free_order_upto": 4, "stacks": "instr 1,2,3n x mw 0,2 (+tracer)"}, "thorough": {"early_bound": 2, "free_order_upto": 5, "stacks": "instr 1,2,3,3n x mw 0,1,2,3 (+tracer)"}}
 TIME_CAP = {"quick": 120, "thorough": 1500}
 
 REQUESTS = [
@@ -56,6 +56,13 @@ REQUESTS = [
     ("partial-parent", {"query": "{ o { x } a }", "custom": {"Query.o": "async", "Obj.x": "sync"}, "overrides": {"o": "err"}}, ["query", "parsing", "validation", "execution"]),
     ("partial-lazy-list", {"query": "{ l { x } b }", "custom": {"Query.l": "async", "Obj.x": "sync", "Query.b": "sync"}, "overrides": {"l": "lazy-err"}}, ["query", "parsing", "validation", "execution"]),
     ("partial-resolve-type", {"query": "{ i { id } a }", "custom": {"Query.i": "sync", "Query.a": "async"}, "overrides": {"i": "type-err"}}, ["query", "parsing", "validation", "execution"]),
+    ("success-shared-resolver", {"query": "{ a b o { x y } l { x } }", "custom": {"Query.a": "shared", "Query.b": "shared", "Obj.x": "shared", "Obj.y": "shared-async"}}, ["query", "parsing", "validation", "execution"]),
+    ("success-shared-async", {"query": "{ a p: a b }", "custom": {"Query.a": "shared-async", "Query.b": "shared-async"}}, ["query", "parsing", "validation", "execution"]),
+    ("success-abstract", {"query": "{ i { id ... on Obj { x } } u { ... on Obj { y } ... on Other { z } } }", "custom": {"Query.i": "async", "Obj.x": "sync", "Other.z": "async"}}, ["query", "parsing", "validation", "execution"]),
+    ("success-deep-list", {"query": "{ l { x l { x } } w }", "custom": {"Obj.x": "async", "Obj.l": "sync", "Query.w": "nested"}}, ["query", "parsing", "validation", "execution"]),
+    ("success-fragments", {"query": "{ ...F a } fragment F on Query { b o { ...G } } fragment G on Obj { x y }", "custom": {"Query.b": "async", "Obj.y": "async"}}, ["query", "parsing", "validation", "execution"]),
+    ("partial-two-errors", {"query": "{ a b c o { x y } }", "custom": {"Query.a": "async", "Query.c": "sync", "Obj.x": "async", "Obj.y": "sync"}, "overrides": {"a": "err", "o.y": "null"}}, ["query", "parsing", "validation", "execution"]),
+    ("mutation-list", {"query": "mutation { m4 { x } m3 }", "custom": {"Mutation.m4": "async", "Obj.x": "async", "Mutation.m3": "sync"}}, ["query", "parsing", "validation", "execution"]),
     ("mutation", {"query": "mutation { m3 m1 { x } }", "custom": {"Mutation.m3": "async", "Mutation.m1": "sync", "Obj.x": "async"}}, ["query", "parsing", "validation", "execution"]),
     ("mutation-partial", {"query": "mutation { m3 m5 }", "custom": {"Mutation.m3": "async", "Mutation.m5": "async"}, "overrides": {"m3": "err"}}, ["query", "parsing", "validation", "execution"]),
     ("preparsed", {"query": "{ a b }", "custom": {"Query.a": "sync"}, "preparsed": True}, ["query", "validation", "execution"]),
@@ -258,15 +265,22 @@ def check_case(case, st):
     b = BOUNDS[st.tier]
     scn = case["scn"]
     out = []
+    try:
+        ndef = S.invoked_paths(scn, fast=False)[1]
+    except Exception:  # noqa  (requests that do not reach execution)
+        ndef = 0
+    # all completion orders are free while few results are in flight; beyond that an out-of-order completion
+    # costs one deviation like an early one
+    free = ndef <= b["free_order_upto"]
     for cfg in H.CONFIGS:
         bad = 0
-        for choices, obs, world in S.schedules(cfg, scn, st, free=True, bound=b["early_bound"], max_execs=(1500 if st.tier == "quick" else 30000), fast=False):
+        for choices, obs, world in S.schedules(cfg, scn, st, free=free, bound=b["early_bound"], max_execs=(4000 if st.tier == "quick" else 30000), fast=False):
             st.n("evaluations")
             if obs["status"] == "exc":
-                out.append(("%s/request-raises" % cfg, {"case": case, "config": cfg, "choices": choices}, obs.get("exc")))
+                out.append(("%s/request-raises" % cfg, {"case": case, "config": cfg, "choices": choices, "free": free}, obs.get("exc")))
                 break
             if obs["status"] in ("stuck", "horizon"):
-                out.append(("%s/stuck" % cfg, {"case": case, "config": cfg, "choices": choices}, str(obs.get("trace"))))
+                out.append(("%s/stuck" % cfg, {"case": case, "config": cfg, "choices": choices, "free": free}, str(obs.get("trace"))))
                 break
             probs = monitor(world, obs, scn, case["stages"])
             if any(e[0] == "hook" and e[2] == "field_start" for e in world.log):
@@ -275,12 +289,12 @@ def check_case(case, st):
             if probs:
                 bad += 1
                 if bad <= 1:
-                    o2, w2 = S.replay(cfg, scn, choices, True, fast=False)
+                    o2, w2 = S.replay(cfg, scn, choices, free, fast=False)
                     if w2.log != world.log:
                         raise HarnessError("non-deterministic replay %r %s %s" % (choices, cfg, case["name"]))
                     for kind in sorted({p[0] for p in probs}):
                         d = [p[1] for p in probs if p[0] == kind][0]
-                        out.append((_cls(case["name"], cfg, kind), {"case": case, "config": cfg, "choices": choices}, d))
+                        out.append((_cls(case["name"], cfg, kind), {"case": case, "config": cfg, "choices": choices, "free": free}, d))
             if st.out_of_time():
                 return out
     if st.counters.get("cases", 0) % 11 == 1:
@@ -292,7 +306,7 @@ def replay(w):
     from mc.sched import scenario as S
 
     case = w["case"]
-    obs, world = S.replay(w["config"], case["scn"], w["choices"], True, fast=False)
+    obs, world = S.replay(w["config"], case["scn"], w["choices"], w.get("free", True), fast=False)
     if obs["status"] == "exc":
         return [("%s/request-raises" % w["config"], obs.get("exc"))]
     if obs["status"] in ("stuck", "horizon"):
